@@ -24,6 +24,19 @@ def _crash_viol(res):
 STRAY_TEXTS = ["OK stolen:1:2", "OK", "NO you are not welcome", "MORE riddle me this", "AGAIN try again", "OK acct"]
 
 
+def _alias_targets(snap, svcs):
+    """(client, service) pairs: the client awaits the entry in table position p >= 32 and was never asked by the
+    entry in position p - 32"""
+    order = sorted(svcs, key=lambda n: n.lower())
+    out = []
+    for (c, s) in snap["await"]:
+        if s in order and order.index(s) >= 32 and c in snap["tagged"]:
+            t = order[order.index(s) - 32]
+            if (c, t) not in snap["await"] and (c, t) not in snap["answered"]:
+                out.append((c, t))
+    return out
+
+
 def gen_stray(rnd, snap, cfg):
     """Pick a stray reply that must be ignored in the observed state."""
     svcs = sorted((snap or {}).get("services") or cfg["services"]) or ["login.example.org"]     # the table in force now
@@ -42,6 +55,8 @@ def gen_stray(rnd, snap, cfg):
             kinds += ["never_queried"] * 2
         if snap["tagged"] and fresh:
             kinds += ["never_queried"] * 4      # a newly added service may sit in a recycled slot of the table
+        if len(svcs) > 32 and _alias_targets(snap, svcs):
+            kinds += ["alias"] * 30             # an entry past the 32nd is awaited: its slot number modulo 32 names another
         if snap.get("waiting") and len(svcs) > 1 and [s for s in cfg["services"] if s not in svcs]:
             kinds += ["never_queried"] * 6      # the table lost an entry during this history: slots may have moved
     if not kinds:
@@ -76,6 +91,9 @@ def gen_stray(rnd, snap, cfg):
         op["text"] = None
     elif k == "answered":
         op["cid"], op["svc"] = rnd.choice(snap["answered"])
+    elif k == "alias":
+        op["skind"] = "never_queried"
+        op["cid"], op["svc"] = rnd.choice(_alias_targets(snap, svcs))
     elif k == "never_queried":
         waiting = [c for c in snap.get("waiting", []) if c in snap["tagged"]]
         op["cid"] = rnd.choice(waiting if waiting and rnd.random() < 0.7 else snap["tagged"])
@@ -149,7 +167,7 @@ class StrayProfile:
 
     def gen_run(self, rnd, opts, tier, tag):
         o = dict(opts)
-        o.update({"min_svc": 1, "snap": True, "w_audit": 0, "prop": "C04", "p_wide": 0.03})
+        o.update({"min_svc": 1, "snap": True, "w_audit": 0, "prop": "C04", "p_wide": 0.04})
         if "faults" not in o:
             fk = [f for f in proto.FAULT_KINDS if f not in ("cfg_torn", "cfg_garbage", "cfg_missing", "cfg_eio", "cfg_burst",
                                                              "cfg_same", "cfg_timeout", "extreme_ids") and rnd.random() < 0.5]
@@ -174,6 +192,11 @@ class StrayProfile:
                      for d in range(0, 5) if 1 <= j + 1 + d <= min(npos, nops - 1)]
             if p is not None and after and rnd.random() < 0.4:
                 p = rnd.choice(after)       # shortly after the service table changed under the live clients
+            if p is not None and len(plan["cfg"]["services"]) > 32:
+                wide = [q for q in range(1, min(npos, nops - 1) + 1) if ra.snaps[q - 1] and
+                        _alias_targets(ra.snaps[q - 1], sorted(ra.snaps[q - 1].get("services") or plan["cfg"]["services"]))]
+                if wide and rnd.random() < 0.8:
+                    p = rnd.choice(wide)
             if p is None:
                 break
             st = gen_stray(rnd, ra.snaps[p - 1], plan["cfg"])
